@@ -812,7 +812,18 @@ class ExprMixin:
                     raise EngineError("slice of tuple (L%d)" % node.lineno)
                 i = ix[1]
                 if not z3.is_int_value(i.t):
-                    raise EngineError("symbolic tuple index (L%d)" % node.lineno)
+                    # symbolic index into a homogeneous tuple: a case per position (non-negative indices), IndexError otherwise
+                    if i.s != INT or len(set(e_.name for e_ in base.s.elems)) != 1:
+                        raise EngineError("symbolic tuple index (L%d)" % node.lineno)
+                    n_ = len(base.s.elems)
+                    s1 = self.raise_if(s1, S.Or(i < -n_, i >= n_), "IndexError", node, exc)
+                    if s1 is None:
+                        continue
+                    val = base.s.get(base, n_ - 1)
+                    for k_ in range(n_ - 2, -1, -1):
+                        val = S.If(S.Or(i == k_, i == k_ - n_), base.s.get(base, k_), val)
+                    res.append((s1, val))
+                    continue
                 k = i.t.as_long()
                 if k < 0:
                     k += len(base.s.elems)
